@@ -23,70 +23,7 @@ def const_of(roles, name):
     return c.value if isinstance(c, ast.Constant) else None
 
 
-# ---------------------------------------------------------------- tiny evaluator for key predicates (C03.d)
-class Undecidable(Exception):
-    pass
-
-
-def eval_pred(e, env, module):
-    """evaluate a pure string predicate over analyser-chosen sample strings (no repository code is executed)"""
-    if isinstance(e, ast.Constant):
-        return e.value
-    if isinstance(e, ast.Name):
-        if e.id in env:
-            return env[e.id]
-        if e.id in module.globals:
-            return eval_pred(module.globals[e.id], env, module)
-        raise Undecidable('name %s' % e.id)
-    if isinstance(e, ast.UnaryOp) and isinstance(e.op, ast.Not):
-        return not eval_pred(e.operand, env, module)
-    if isinstance(e, ast.BoolOp):
-        vals = [eval_pred(v, env, module) for v in e.values]
-        return all(vals) if isinstance(e.op, ast.And) else any(vals)
-    if isinstance(e, ast.Compare) and len(e.ops) == 1:
-        l, r = eval_pred(e.left, env, module), eval_pred(e.comparators[0], env, module)
-        op = e.ops[0]
-        if isinstance(op, ast.In):
-            return l in r
-        if isinstance(op, ast.NotIn):
-            return l not in r
-        if isinstance(op, ast.Eq):
-            return l == r
-        if isinstance(op, ast.NotEq):
-            return l != r
-        if isinstance(op, ast.Is):
-            return l is r
-        if isinstance(op, ast.IsNot):
-            return l is not r
-        raise Undecidable('comparison')
-    if isinstance(e, ast.Attribute) and isinstance(e.value, ast.Name) and e.value.id in env and isinstance(env[e.value.id], dict):
-        return env[e.value.id][e.attr]
-    if isinstance(e, ast.Attribute) and isinstance(e.value, ast.Name) and module.imports.get(e.value.id, '') == 're' and \
-            e.attr.isupper():
-        return getattr(re, e.attr)
-    if isinstance(e, ast.BinOp) and isinstance(e.op, ast.BitOr):
-        return eval_pred(e.left, env, module) | eval_pred(e.right, env, module)
-    if isinstance(e, ast.Call):
-        f = e.func
-        args = [eval_pred(a, env, module) for a in e.args]
-        if isinstance(f, ast.Attribute):
-            if f.attr in ('startswith', 'endswith', 'find', 'count', 'lower', 'upper', 'strip', 'split', 'rsplit'):
-                recv = eval_pred(f.value, env, module)
-                if isinstance(recv, str):
-                    return getattr(recv, f.attr)(*args)
-            if f.attr in ('match', 'search', 'fullmatch', 'compile'):
-                base = None
-                if isinstance(f.value, ast.Name) and module.imports.get(f.value.id, '') == 're':
-                    if f.attr == 'compile':
-                        return re.compile(*args)
-                    return getattr(re, f.attr)(*args)
-                recv = eval_pred(f.value, env, module)
-                if isinstance(recv, re.Pattern):
-                    return getattr(recv, f.attr)(*args)
-        if isinstance(f, ast.Name) and f.id in ('bool', 'len', 'str'):
-            return {'bool': bool, 'len': len, 'str': str}[f.id](*args)
-        raise Undecidable('call %s' % norm(f))
-    raise Undecidable(type(e).__name__)
+from ..predeval import eval_pred, Undecidable
 
 
 def fmt_template(tmpl, *vals):
